@@ -170,6 +170,18 @@ func (s *Sub) Done() {
 		s.run.ID, s.Name, ev, s.States.Load(), s.Transitions.Load(), s.dcount.Load(), s.Exhaustive, s.Bound, s.wall)
 }
 
+// Count increments a named counter reported in the evidence (Extra["counts"]); it is not a verdict.
+func (s *Sub) Count(name string) {
+	s.run.mu.Lock()
+	m, _ := s.Extra["counts"].(map[string]int64)
+	if m == nil {
+		m = map[string]int64{}
+		s.Extra["counts"] = m
+	}
+	m[name]++
+	s.run.mu.Unlock()
+}
+
 // Incomplete marks the sub-check as cut short (deadline or cap) with a reason.
 func (s *Sub) Incomplete(why string) {
 	s.run.mu.Lock()
